@@ -1,7 +1,174 @@
 package main
 
-// Channel invariants, closure-spec implementation checks (filled in later).
+// Channel invariants, receive obligations, ghost updates, closure-spec checks.
 
-func (ex *Exec) chanHook(fr *Frame, st *State, ev string, c Term, msg Term) {}
+import (
+	"fmt"
+	"go/types"
+	"strings"
 
-func (ex *Exec) checkImplements(fr *Frame, r *Clause, args []Val, pnames []string, st *State) {}
+	"golang.org/x/tools/go/ssa"
+)
+
+// chanHook: close(c) must establish every declared channel invariant for c; a
+// receive on c may assume them (they are required to be stable: they only
+// mention monotone ghost state) and must satisfy the onrecv obligations.
+func (ex *Exec) chanHook(fr *Frame, st *State, ev string, c Term, msg Term) {
+	vc := ex.vc
+	cs := vc.prog.contracts
+	pkg := fr.fn.Pkg
+	_ = pkg
+	eval := func(ga *GlobalAssume, goal bool) (string, bool) {
+		env := ex.newEnv(st, vc.entryFor(fr), ga.pkg, fr)
+		env.goal = goal
+		env.binds["c"] = TVal{T: c}
+		f := env.Bool(ga.Expr)
+		if len(env.errs) > 0 {
+			vc.fatalf("channel rule %q: %s", ga.Text, strings.Join(env.errs, "; "))
+			return "", false
+		}
+		return f, true
+	}
+	inScope := func(ga *GlobalAssume) bool {
+		if len(ga.Scope) == 0 {
+			return true
+		}
+		for f := fr; f != nil; f = f.caller {
+			n := vc.prog.funcName(f.fn)
+			for _, sc := range ga.Scope {
+				if strings.Contains(n, sc) {
+					return true
+				}
+			}
+		}
+		return false
+	}
+	switch ev {
+	case "close":
+		for i, ga := range cs.ChanInvs {
+			if !inScope(ga) {
+				continue
+			}
+			// evaluated in the state after the close
+			h := vc.heapGet(st, "CH_closed", "(Array Int Bool)")
+			st2 := st.clone()
+			vc.heapSet(st2, "CH_closed", Term{app("store", h.S, c.S, "true"), "(Array Int Bool)"})
+			env := ex.newEnv(st2, vc.entryFor(fr), ga.pkg, fr)
+			env.goal = true
+			env.binds["c"] = TVal{T: c}
+			f := env.Bool(ga.Expr)
+			if len(env.errs) > 0 {
+				vc.fatalf("channel invariant %q: %s", ga.Text, strings.Join(env.errs, "; "))
+				return
+			}
+			vc.curProps = ga.Props
+			ex.obligationFull(fr, st, "protocol", "close establishes the channel invariant: "+ga.Text, f, false, fmt.Sprintf("chaninv%d@%d", i+1, ex.siteOrdinal(ex.cur)), false)
+			vc.curProps = nil
+		}
+	case "recv":
+		for i, ga := range cs.OnRecv {
+			if !inScope(ga) {
+				continue
+			}
+			if f, ok := eval(ga, true); ok {
+				vc.curProps = ga.Props
+				ex.obligationFull(fr, st, "protocol", "at a receive: "+ga.Text, f, false, fmt.Sprintf("onrecv%d@%d", i+1, ex.siteOrdinal(ex.cur)), false)
+				vc.curProps = nil
+			}
+		}
+		for _, ga := range cs.OnRecvUp {
+			if !inScope(ga) {
+				continue
+			}
+			env := ex.newEnv(st, vc.entryFor(fr), ga.pkg, fr)
+			env.binds["c"] = TVal{T: c}
+			v := env.tr(ga.Expr)
+			if len(env.errs) > 0 {
+				vc.fatalf("onrecv update %s: %s", ga.Ghost, strings.Join(env.errs, "; "))
+				return
+			}
+			st.ghost[ga.Ghost] = v.T
+			if st.writes != nil {
+				st.writes.ghost[ga.Ghost] = true
+			}
+		}
+		// a receive on an unbuffered struct{} channel returns after a send or the close;
+		// channels governed by an invariant are only ever closed, never sent on
+		h := vc.heapGet(st, "CH_closed", "(Array Int Bool)")
+		for _, ga := range cs.ChanInvs {
+			if !inScope(ga) {
+				continue
+			}
+			st2 := st.clone()
+			vc.heapSet(st2, "CH_closed", Term{app("store", h.S, c.S, "true"), "(Array Int Bool)"})
+			env := ex.newEnv(st2, vc.entryFor(fr), ga.pkg, fr)
+			env.binds["c"] = TVal{T: c}
+			f := env.Bool(ga.Expr)
+			if len(env.errs) == 0 {
+				st.assume(f)
+			}
+		}
+	}
+}
+
+// applyUpdates performs the ghost updates a contract declares for the return of its function.
+func (ex *Exec) applyUpdates(st *State, c *FuncContract, env *Env) {
+	vc := ex.vc
+	for _, u := range c.Updates {
+		v := env.tr(u.Expr)
+		if len(env.errs) > 0 {
+			vc.fatalf("ghost update %s = %s: %s", u.Ghost, u.Text, strings.Join(env.errs, "; "))
+			return
+		}
+		st.ghost[u.Ghost] = v.T
+		if st.writes != nil {
+			st.writes.ghost[u.Ghost] = true
+		}
+	}
+}
+
+// checkImplements: `requires implements(param, Spec)` at a call site. The argument must
+// resolve statically to a function or closure, whose body is then verified against the spec
+// as a separate unit (free variables of a closure are treated as arbitrary).
+func (ex *Exec) checkImplements(fr *Frame, r *Clause, args []Val, pnames []string, st *State) {
+	vc := ex.vc
+	c := r.Expr.(ECall)
+	id, ok1 := c.Args[0].(EIdent)
+	sn, ok2 := c.Args[1].(EIdent)
+	if !ok1 || !ok2 {
+		vc.fatalf("implements(param, Spec) expected: %s", r.Text)
+		return
+	}
+	spec := vc.prog.contracts.Specs[sn.Name]
+	if spec == nil {
+		vc.fatalf("unknown closure spec %s", sn.Name)
+		return
+	}
+	for i, pn := range pnames {
+		if pn != id.Name || i >= len(args) {
+			continue
+		}
+		a := args[i]
+		if a.K == VTerm && a.T.Sort == SFunc {
+			if cl, ok := vc.funcConsts[a.T.S]; ok {
+				a = cl
+			} else if sp, ok := vc.funcSpecs[a.T.S]; ok && sp == spec {
+				return
+			}
+		}
+		if a.K != VClosure || a.Fn == nil {
+			ex.obligationFull(fr, st, "call-requires", "function argument must resolve statically to implement "+sn.Name, "false", false, "implements."+sn.Name, true)
+			return
+		}
+		vc.specChecks = append(vc.specChecks, specCheck{fn: a.Fn, spec: spec})
+		return
+	}
+	vc.fatalf("implements: no parameter named %s", id.Name)
+}
+
+type specCheck struct {
+	fn   *ssa.Function
+	spec *FuncContract
+}
+
+var _ = types.Typ
